@@ -322,7 +322,103 @@ def check_block(ctx, case):
         ctx.disc('block.objreader.txids', 'parse_transactions txids differ', case)
 
 
-DISPATCH = {'tx': check_tx, 'block': check_block}
+def check_api(ctx, case):
+    """A transaction built through the API serialises to bytes the independent parser reads back to the
+    requested fields."""
+    from props import txplan
+    from ref import wire
+    plan = case['plan']
+    try:
+        t = txplan.realise(plan)
+        if case.get('signed', True):
+            txplan.sign_history(t, plan)
+        raw = t.raw()
+    except Exception as e:
+        ctx.refusal('api.%s' % type(e).__name__)
+        return
+    try:
+        r = wire.Tx.parse(raw)
+    except Exception as e:
+        raise Discrepancy('api.unparseable', 'raw() of API-built transaction not parseable: %r %s' %
+                          (e, raw.hex()[:300]), case)
+    probs = []
+    if r.version != txplan.expected_version(plan):
+        probs.append('version %d want %d' % (r.version, txplan.expected_version(plan)))
+    if r.locktime != plan['locktime']:
+        probs.append('locktime %d want %d' % (r.locktime, plan['locktime']))
+    if len(r.vin) != len(plan['inputs']) or len(r.vout) != len(plan['outputs']):
+        probs.append('counts')
+    else:
+        for k, (a, i) in enumerate(zip(r.vin, plan['inputs'])):
+            if a.prev_hash[::-1].hex() != i['prev'] or a.prev_n != i['n'] or a.sequence != i['seq']:
+                probs.append('input %d outpoint/sequence' % k)
+            po = txplan.prevout(i)
+            if po['redeem'] is not None and po['segwit'] and a.script_sig != wire.push_data(po['redeem']):
+                probs.append('input %d nested scriptSig %s want push of %s' % (k, a.script_sig.hex(),
+                                                                              po['redeem'].hex()))
+            if i['kind'] in ('p2wpkh', 'p2wsh_ms') and a.script_sig != b'':
+                probs.append('input %d native segwit input with scriptSig' % k)
+        for k, (a, o) in enumerate(zip(r.vout, plan['outputs'])):
+            if a.value != o['value'] or a.script != txplan.output_script(o):
+                probs.append('output %d: %d %s want %d %s' % (k, a.value, a.script.hex(), o['value'],
+                                                              txplan.output_script(o).hex()))
+    if probs:
+        ctx.disc('api.fields', '; '.join(probs[:4]), case)
+        return
+    # ids of the built transaction once parsed back by the library itself
+    try:
+        from bitcoinlib.transactions import Transaction
+        t2 = Transaction.parse(raw, network=plan['network'])
+        if t2.txid != r.txid().hex():
+            ctx.disc('api.reparse.txid', 'txid after re-parse %s want %s' % (t2.txid, r.txid().hex()), case)
+            return
+        if t2.raw() != raw:
+            ctx.disc('api.reparse.bytes', 're-parse of API-built transaction does not round-trip', case)
+    except Discrepancy:
+        raise
+    except Exception as e:
+        ctx.disc('api.reparse.raises', 'library cannot parse its own transaction: %r' % e, case)
+
+
+DISPATCH = {'tx': check_tx, 'block': check_block, 'api': check_api}
+
+
+def probes(ctx):
+    saved = ctx.findings
+    ctx.findings = {}
+    base_in = {'prev': '11' * 32, 'n': 0, 'ss': '', 'seq': 0xffffffff, 'wit': []}
+    sig = '30440220' + '11' * 32 + '0220' + '22' * 32 + '01'
+    pub = '0279be667ef9dcbbac55a06295ce870b07029bfcdb2dce28d959f2815b16f81798'
+    plist = [
+        ('C06-zero-byte-item-serialised-empty',
+         {'kind': 'tx', 'strict': False, 'tx': {'version': 1, 'locktime': 0, 'vin': [base_in],
+                                                'vout': [{'v': 1, 'spk': '00'}]}},
+         'an output script (or witness item) consisting of the single byte 00 is re-serialised as empty'),
+        ('C06-scriptsig-and-witness-not-nested',
+         {'kind': 'tx', 'strict': False, 'tx': {'version': 1, 'locktime': 0,
+                                                'vin': [dict(base_in, ss='51', wit=['aabb'])],
+                                                'vout': [{'v': 1, 'spk': '51'}]}},
+         'a non-coinbase input carrying both a scriptSig that is not a nested-segwit push and a witness loses its '
+         'witness (or has its scriptSig regenerated) on re-serialisation'),
+        ('C06-short-signature-not-recognised',
+         {'kind': 'tx', 'strict': False,
+          'tx': {'version': 1, 'locktime': 0,
+                 'vin': [dict(base_in, wit=['', '3006020101020101' + '01',
+                                            '5121' + pub + '51ae'],
+                              ss='220020' + 'ab' * 32)],
+                 'vout': [{'v': 1, 'spk': '51'}]}},
+         'a nested/multisig input whose signature push is outside 69..74 bytes is not recognised: scriptSig / '
+         'redeem script are regenerated (as 1-of-n) and the bytes change'),
+    ]
+    try:
+        for fid, case, what in plist:
+            try:
+                replay(ctx, case)
+                ctx.probe(fid, False, what)
+            except Discrepancy:
+                ctx.probe(fid, True, what)
+    finally:
+        ctx.findings = saved
 
 
 def replay(ctx, case):
@@ -346,7 +442,7 @@ def run(ctx):
 
     tx_strat = st.fixed_dictionaries({'kind': st.just('tx'), 'strict': st.booleans(),
                                       'tx': txgen.tx_cases(big_counts=False)})
-    ctx.run_given('tx', tx_strat, prop_tx, ctx.scale(500, 15000))
+    ctx.run_given('tx', tx_strat, prop_tx, ctx.scale(300, 12000))
 
     def prop_block(case):
         ctx.nt(('block', case['block']))
@@ -359,3 +455,15 @@ def run(ctx):
 
     ctx.run_given('block', st.fixed_dictionaries({'kind': st.just('block'), 'block': txgen.block_cases()}),
                   prop_block, ctx.scale(40, 600))
+
+    from props import txplan
+
+    def prop_api(case):
+        flags = txplan.boundary_flags(case['plan'])
+        if flags:
+            ctx.nt(('api', case['plan'], case['signed']))
+        ctx.klass('api.signed' if case['signed'] else 'api.unsigned')
+        check_api(ctx, case)
+    ctx.run_given('api', st.fixed_dictionaries({'kind': st.just('api'), 'signed': st.booleans(),
+                                                'plan': txplan.plans(max_inputs=3)}),
+                  prop_api, ctx.scale(60, 1500))
